@@ -15,6 +15,125 @@ mod xmlcheck;
 
 use std::time::Instant;
 
+/// Run the check in a child process; if the child is killed (signal / abort) find the state that kills it among the
+/// breadcrumbs the workers left (the state each was executing), confirm it twice in fresh processes and report.
+fn supervise(id: &str, rest: &[String]) -> i32 {
+    use std::process::{Command, Stdio};
+    let t0 = Instant::now();
+    let exe = std::env::current_exe().expect("own path");
+    let crumbs = format!("{}/target/run/crumbs-{}", core::verif_root(), std::process::id());
+    let _ = std::fs::remove_dir_all(&crumbs);
+    let _ = std::fs::create_dir_all(&crumbs);
+    let status = Command::new(&exe).arg(id).args(rest).env("VERIF_SUPERVISED", "1").env("VERIF_CRUMBS", &crumbs).stdin(Stdio::null()).status();
+    let code = status.as_ref().ok().and_then(|s| s.code());
+    if let Some(c @ (0 | 1 | 2)) = code {
+        let _ = std::fs::remove_dir_all(&crumbs);
+        return c;
+    }
+    #[cfg(unix)]
+    let signal = {
+        use std::os::unix::process::ExitStatusExt;
+        status.as_ref().ok().and_then(|s| s.signal())
+    };
+    #[cfg(not(unix))]
+    let signal: Option<i32> = None;
+    let how = format!("exit code {code:?}, signal {signal:?}");
+    let verdict_check = id == "C16" || id == "C08";
+    let replaying = rest.iter().any(|a| a == "--replay");
+    if replaying {
+        let path = rest.iter().skip_while(|a| *a != "--replay").nth(1).cloned().unwrap_or_default();
+        let _ = std::fs::remove_dir_all(&crumbs);
+        println!("the process executing this input was killed ({how})");
+        if verdict_check {
+            println!("VIOLATION property={id} replay={path}");
+            return 1;
+        }
+        eprintln!("MACHINERY: the subject killed the process of check {id} on this input (process-level crashes are the subject of C16)");
+        return 2;
+    }
+    // candidates: what each worker was executing
+    let mut cands: Vec<(String, String, String)> = vec![];
+    if let Ok(rd) = std::fs::read_dir(&crumbs) {
+        for e in rd.flatten() {
+            if let Ok(b) = std::fs::read(e.path()) {
+                let t = String::from_utf8_lossy(&b).to_string();
+                let mut it = t.splitn(2, '\n');
+                let head = it.next().unwrap_or("").to_string();
+                let body = it.next().unwrap_or("");
+                let mut ks = head.split(' ');
+                let len: usize = ks.next().and_then(|x| x.parse().ok()).unwrap_or(0);
+                let (k0, k1) = (ks.next().unwrap_or("0").to_string(), ks.next().unwrap_or("0").to_string());
+                // the file is not truncated between states: only the first `len` bytes of the body are valid
+                let head_len = head.len() + 1;
+                let text = String::from_utf8_lossy(&b[head_len.min(b.len())..(head_len + len).min(b.len())]).to_string();
+                let _ = body;
+                if !cands.iter().any(|c| c.2 == text) {
+                    cands.push((k0, k1, text));
+                }
+            }
+        }
+    }
+    let _ = std::fs::remove_dir_all(&crumbs);
+    cands.sort_by_key(|c| c.2.len());
+    let dir = format!("{}/replays/{id}", core::verif_root());
+    let _ = std::fs::create_dir_all(&dir);
+    let mut confirmed: Vec<(String, String)> = vec![];
+    for (n, (k0, k1, text)) in cands.iter().enumerate() {
+        let path = format!("{dir}/crash-{n}.json");
+        let rec = serde_json::json!({
+            "property": id, "clause": "process_not_killed_by_the_library", "features": ["abort"], "config": "in-process execution of the check on this input",
+            "observed": format!("the process was killed ({how})"), "expected": "a result or a typed error",
+            "text": text, "hash_key": [k0, k1], "replay": format!("{}/bin/check {id} --replay {path}", core::verif_root()),
+        });
+        let _ = std::fs::write(&path, serde_json::to_string_pretty(&rec).unwrap());
+        let dies = || {
+            let st = Command::new(&exe).arg(id).arg("--replay").arg(&path).env("VERIF_SUPERVISED", "1").stdin(Stdio::null()).stdout(Stdio::null()).stderr(Stdio::null()).status();
+            !matches!(st.ok().and_then(|s| s.code()), Some(0 | 1 | 2))
+        };
+        if dies() && dies() {
+            confirmed.push((path, text.clone()));
+            if confirmed.len() >= 3 {
+                break;
+            }
+        } else {
+            let _ = std::fs::remove_file(&path);
+        }
+    }
+    let tier = if rest.iter().any(|a| a == "thorough") || std::env::var("VERIF_TIER").as_deref() == Ok("thorough") { "thorough" } else { "quick" };
+    if confirmed.is_empty() {
+        eprintln!("MACHINERY: the process of check {id} was killed ({how}) and none of the {} states being executed kills a fresh process", cands.len());
+        return 2;
+    }
+    for (path, text) in &confirmed {
+        println!("  clause=process_not_killed_by_the_library features=[\"abort\"] observed=the process executing the check was killed ({how}); reproduced twice in fresh processes expected=a result or a typed error");
+        println!("  input: {}", text.replace('\n', " | "));
+        if verdict_check {
+            println!("VIOLATION property={id} replay={path}");
+        }
+    }
+    if !verdict_check {
+        eprintln!("MACHINERY: the subject kills the process of check {id} on the input(s) above; process-level crashes are the subject of C16 (and C08), this check cannot run to its end");
+        return 2;
+    }
+    // the exploration did not run to its end: a reduced evidence file
+    let ev = serde_json::json!({
+        "property_id": id, "tier": tier, "seed": std::env::var("VERIF_SEED").ok().and_then(|s| s.parse::<i64>().ok()).unwrap_or(0),
+        "level": if id == "C16" { "fault_enumeration" } else { "model_checking" },
+        "coverage": {
+            "evaluations": cands.len() + 2 * confirmed.len(), "distinct_nontrivial": confirmed.len(), "states": cands.len(), "transitions": cands.len(), "exhaustive": false,
+            "rule": "the exploration ended when the library killed the process; the states being executed at that moment were re-executed twice each in fresh processes; non-trivial = kills the process both times",
+            "samples": confirmed.iter().map(|c| c.1.clone()).collect::<Vec<_>>(),
+            "explanation": format!("exploration incomplete: process killed ({how})"),
+        },
+        "assumptions": ["a killed process is attributed to the state a worker was executing, confirmed by re-execution in a fresh process"],
+        "wall_s": t0.elapsed().as_secs_f64(), "violations": confirmed.len(), "exit_code": 1,
+    });
+    for f in [format!("{}/evidence/{id}.json", core::verif_root()), format!("{}/evidence/{tier}/{id}.json", core::verif_root())] {
+        let _ = std::fs::write(f, serde_json::to_string_pretty(&ev).unwrap());
+    }
+    1
+}
+
 fn main() {
     let args: Vec<String> = std::env::args().collect();
     if args.len() < 2 {
@@ -26,6 +145,11 @@ fn main() {
         // child of C07: nothing may have been prepared in this process before
         std::panic::set_hook(Box::new(|_| {}));
         std::process::exit(props::c07::seq_child());
+    }
+    if std::env::var("VERIF_SUPERVISED").is_err() && id.len() == 3 && id.starts_with('C') {
+        // every check runs as a child of this supervisor: a subject that ABORTS the process (stack overflow,
+        // allocation failure, abort()) cannot be caught in-process, but it is an observation all the same
+        std::process::exit(supervise(&id, &args[2..]));
     }
     let mut tier = match std::env::var("VERIF_TIER").as_deref() {
         Ok("thorough") => core::Tier::Thorough,
